@@ -15,6 +15,16 @@ import (
 	"time"
 )
 
+var outRoot = func() string {
+	if v := os.Getenv("VERIF_OUT"); v != "" {
+		return v
+	}
+	if v := os.Getenv("VERIF_ROOT"); v != "" {
+		return v
+	}
+	return "/verif"
+}()
+
 var verifRoot = func() string {
 	if v := os.Getenv("VERIF_ROOT"); v != "" {
 		return v
@@ -89,6 +99,7 @@ type Check struct {
 	Exhaustive   bool
 	discarded    int
 	printed      int
+	nonterm      int
 }
 
 func NewCheck(prop string) *Check {
@@ -236,7 +247,7 @@ func (c *Check) Violation(key string, summary string, files map[string]string) {
 	}
 	c.violKeys[key] = true
 	h := sha256.Sum256([]byte(key + "\x00" + summary))
-	dir := filepath.Join(verifRoot, "replays", c.Prop, hex.EncodeToString(h[:6]))
+	dir := filepath.Join(outRoot, "replays", c.Prop, hex.EncodeToString(h[:6]))
 	if c.printed < 25 {
 		os.MkdirAll(dir, 0o755)
 		meta := map[string]interface{}{"property": c.Prop, "key": key, "summary": summary, "seed": c.Seed, "tier": c.Tier}
@@ -310,8 +321,8 @@ func (c *Check) Finish() {
 		fmt.Fprintf(os.Stderr, "evidence marshal: %v\n", err)
 		os.Exit(2)
 	}
-	os.MkdirAll(filepath.Join(verifRoot, "evidence"), 0o755)
-	if err := os.WriteFile(filepath.Join(verifRoot, "evidence", c.Prop+".json"), b, 0o644); err != nil {
+	os.MkdirAll(filepath.Join(outRoot, "evidence"), 0o755)
+	if err := os.WriteFile(filepath.Join(outRoot, "evidence", c.Prop+".json"), b, 0o644); err != nil {
 		fmt.Fprintf(os.Stderr, "evidence write: %v\n", err)
 		os.Exit(2)
 	}
@@ -355,4 +366,11 @@ func clip(s string, n int) string {
 		return s[:n] + fmt.Sprintf("...[%d more bytes]", len(s)-n)
 	}
 	return s
+}
+
+func (c *Check) bumpNonterm() int {
+	c.mu.Lock()
+	defer c.mu.Unlock()
+	c.nonterm++
+	return c.nonterm
 }
